@@ -154,10 +154,11 @@ def _alarm(*_):
 
 
 def run_path(job):
-    """(steps conforming, first discrepancy or None); a path that does not finish in 20 s is a violation"""
+    """(steps conforming, first discrepancy or None); a path that uses more than 15 s of CPU time is a violation (processor
+    time of this worker, not wall-clock time: a busy machine must not look like a program that does not terminate)"""
     import signal
-    signal.signal(signal.SIGALRM, _alarm)
-    signal.alarm(20)
+    signal.signal(signal.SIGPROF, _alarm)
+    signal.setitimer(signal.ITIMER_PROF, 15)
     try:
         try:
             return _run_path(job)
@@ -166,9 +167,9 @@ def run_path(job):
         except Exception as ex:      # noqa - raised while results were being compared: a verdict, not a harness error
             return 0, {"step": -1, "op": {"op": "?"}, "what": f"the results cannot be examined: {type(ex).__name__}: {ex}", "fid": None}
     except _Watchdog:
-        return 0, {"step": -1, "op": {"op": "?"}, "what": "program did not terminate within 20 s", "fid": None}
+        return 0, {"step": -1, "op": {"op": "?"}, "what": "program did not terminate within 15 s of processor time", "fid": None}
     finally:
-        signal.alarm(0)
+        signal.setitimer(signal.ITIMER_PROF, 0)
 
 
 def _run_path(job):
